@@ -89,6 +89,96 @@ package oidc
 //@   ensures  fail: err != nil ==> View[self.pay][sessionID] == old(View)[self.pay][sessionID] || !View[self.pay][sessionID].present
 
 // ---------------------------------------------------------------------------------------------
+// SessionStore under interference (C09, variant intf): between two store operations of one check,
+// other requests may have answered logouts — sessions removed and marked in the ghost LoggedOut.
+// EnvView is the store content the operation finds; every clause of the sequential contract is
+// restated relative to it. Generated from the contracts above (old(View) -> EnvView).
+// ---------------------------------------------------------------------------------------------
+
+//@ interface SessionStore method GetTokenResponse(self, ctx, sessionID) (t, err)
+//@   variant intf
+//@   modifies ghost View, ghost Clk, ghost EnvView, ghost LoggedOut
+//@   ensures  clock: Clk >= old(Clk)
+//@   ensures  timeout: t != nil ==> !TimedOut(EnvView[self.pay][sessionID], old(Clk), StoreAbs(self), StoreIdle(self))
+//@   ensures  kept_inside: t == nil && err == nil && EnvView[self.pay][sessionID].present && EnvView[self.pay][sessionID].hasTok ==> !InsideLimits(EnvView[self.pay][sessionID], Clk, StoreAbs(self), StoreIdle(self)) || !JwtParses(EnvView[self.pay][sessionID].tok.id)
+//@   ensures  frame: OnlySid(EnvView, View, self.pay, sessionID)
+//@   ensures  frame_pw: OnlySidPW(EnvView, View, self.pay, sessionID)
+//@   derived  frame by L-onlysid-ext
+//@   ensures  err_nil: err != nil ==> t == nil
+//@   ensures  got: t != nil ==> EnvView[self.pay][sessionID].present && EnvView[self.pay][sessionID].hasTok && TokOf(t) == EnvView[self.pay][sessionID].tok
+//@   ensures  got_kept: t != nil ==> Touched(EnvView[self.pay][sessionID], View[self.pay][sessionID])
+//@   ensures  refreshed: t != nil && View[self.pay][sessionID].present ==> Refreshed(View[self.pay][sessionID], old(Clk), Clk, StoreAbs(self), StoreIdle(self))
+//@   ensures  after: Touched(EnvView[self.pay][sessionID], View[self.pay][sessionID]) || !View[self.pay][sessionID].present
+//@   ensures  env: EnvStep(old(View), old(LoggedOut), EnvView, LoggedOut, self.pay)
+
+//@ interface SessionStore method GetAuthorizationState(self, ctx, sessionID) (a, err)
+//@   variant intf
+//@   modifies ghost View, ghost Clk, ghost EnvView, ghost LoggedOut
+//@   ensures  clock: Clk >= old(Clk)
+//@   ensures  timeout: a != nil ==> !TimedOut(EnvView[self.pay][sessionID], old(Clk), StoreAbs(self), StoreIdle(self))
+//@   ensures  kept_inside: a == nil && err == nil && EnvView[self.pay][sessionID].present && EnvView[self.pay][sessionID].hasAuth ==> !InsideLimits(EnvView[self.pay][sessionID], Clk, StoreAbs(self), StoreIdle(self))
+//@   ensures  frame: OnlySid(EnvView, View, self.pay, sessionID)
+//@   ensures  frame_pw: OnlySidPW(EnvView, View, self.pay, sessionID)
+//@   derived  frame by L-onlysid-ext
+//@   ensures  err_nil: err != nil ==> a == nil
+//@   ensures  got: a != nil ==> EnvView[self.pay][sessionID].present && EnvView[self.pay][sessionID].hasAuth && AuthOf(a) == EnvView[self.pay][sessionID].auth
+//@   ensures  got_kept: a != nil ==> Touched(EnvView[self.pay][sessionID], View[self.pay][sessionID])
+//@   ensures  refreshed: a != nil && View[self.pay][sessionID].present ==> Refreshed(View[self.pay][sessionID], old(Clk), Clk, StoreAbs(self), StoreIdle(self))
+//@   ensures  after: Touched(EnvView[self.pay][sessionID], View[self.pay][sessionID]) || !View[self.pay][sessionID].present
+//@   ensures  env: EnvStep(old(View), old(LoggedOut), EnvView, LoggedOut, self.pay)
+
+//@ interface SessionStore method SetTokenResponse(self, ctx, sessionID, tokenResponse) err
+//@   variant intf
+//@   requires tok_nonnil: tokenResponse != nil
+//@   requires tok_id: tokenResponse.IDToken != ""
+//@   modifies ghost View, ghost Clk, ghost EnvView, ghost LoggedOut
+//@   ensures  clock: Clk >= old(Clk)
+//@   ensures  frame: OnlySid(EnvView, View, self.pay, sessionID)
+//@   ensures  frame_pw: OnlySidPW(EnvView, View, self.pay, sessionID)
+//@   derived  frame by L-onlysid-ext
+//@   ensures  ok: err == nil ==> SetTokPost(EnvView[self.pay][sessionID], View[self.pay][sessionID], TokOf(tokenResponse)) || (Expirable(EnvView[self.pay][sessionID], Clk, StoreAbs(self), StoreIdle(self)) && SetTokPost(AbsentSession(), View[self.pay][sessionID], TokOf(tokenResponse)))
+//@   ensures  refreshed: err == nil && View[self.pay][sessionID].present ==> Refreshed(View[self.pay][sessionID], old(Clk), Clk, StoreAbs(self), StoreIdle(self))
+//@   ensures  fail: err != nil ==> View[self.pay][sessionID] == EnvView[self.pay][sessionID] || !View[self.pay][sessionID].present || SetTokPost(EnvView[self.pay][sessionID], View[self.pay][sessionID], TokOf(tokenResponse)) || (Expirable(EnvView[self.pay][sessionID], Clk, StoreAbs(self), StoreIdle(self)) && SetTokPost(AbsentSession(), View[self.pay][sessionID], TokOf(tokenResponse)))
+//@   ensures  env: EnvStep(old(View), old(LoggedOut), EnvView, LoggedOut, self.pay)
+
+//@ interface SessionStore method SetAuthorizationState(self, ctx, sessionID, authorizationState) err
+//@   variant intf
+//@   requires auth_nonnil: authorizationState != nil
+//@   requires auth_full: authorizationState.State != "" && authorizationState.Nonce != "" && authorizationState.RequestedURL != "" && authorizationState.CodeVerifier != ""
+//@   modifies ghost View, ghost Clk, ghost EnvView, ghost LoggedOut
+//@   ensures  clock: Clk >= old(Clk)
+//@   ensures  frame: OnlySid(EnvView, View, self.pay, sessionID)
+//@   ensures  frame_pw: OnlySidPW(EnvView, View, self.pay, sessionID)
+//@   derived  frame by L-onlysid-ext
+//@   ensures  ok: err == nil ==> SetAuthPost(EnvView[self.pay][sessionID], View[self.pay][sessionID], AuthOf(authorizationState)) || (Expirable(EnvView[self.pay][sessionID], Clk, StoreAbs(self), StoreIdle(self)) && SetAuthPost(AbsentSession(), View[self.pay][sessionID], AuthOf(authorizationState)))
+//@   ensures  refreshed: err == nil && View[self.pay][sessionID].present ==> Refreshed(View[self.pay][sessionID], old(Clk), Clk, StoreAbs(self), StoreIdle(self))
+//@   ensures  fail: err != nil ==> View[self.pay][sessionID] == EnvView[self.pay][sessionID] || !View[self.pay][sessionID].present || SetAuthPost(EnvView[self.pay][sessionID], View[self.pay][sessionID], AuthOf(authorizationState)) || (Expirable(EnvView[self.pay][sessionID], Clk, StoreAbs(self), StoreIdle(self)) && SetAuthPost(AbsentSession(), View[self.pay][sessionID], AuthOf(authorizationState)))
+//@   ensures  env: EnvStep(old(View), old(LoggedOut), EnvView, LoggedOut, self.pay)
+
+//@ interface SessionStore method ClearAuthorizationState(self, ctx, sessionID) err
+//@   variant intf
+//@   modifies ghost View, ghost Clk, ghost EnvView, ghost LoggedOut
+//@   ensures  clock: Clk >= old(Clk)
+//@   ensures  frame: OnlySid(EnvView, View, self.pay, sessionID)
+//@   ensures  frame_pw: OnlySidPW(EnvView, View, self.pay, sessionID)
+//@   derived  frame by L-onlysid-ext
+//@   ensures  absent: !EnvView[self.pay][sessionID].present ==> !View[self.pay][sessionID].present
+//@   ensures  ok: err == nil && EnvView[self.pay][sessionID].present ==> ClearPost(EnvView[self.pay][sessionID], View[self.pay][sessionID]) || (Expirable(EnvView[self.pay][sessionID], Clk, StoreAbs(self), StoreIdle(self)) && !View[self.pay][sessionID].present)
+//@   ensures  fail: err != nil ==> View[self.pay][sessionID] == EnvView[self.pay][sessionID] || !View[self.pay][sessionID].present || ClearPost(EnvView[self.pay][sessionID], View[self.pay][sessionID])
+//@   ensures  env: EnvStep(old(View), old(LoggedOut), EnvView, LoggedOut, self.pay)
+
+//@ interface SessionStore method RemoveSession(self, ctx, sessionID) err
+//@   variant intf
+//@   modifies ghost View, ghost Clk, ghost EnvView, ghost LoggedOut
+//@   ensures  clock: Clk >= old(Clk)
+//@   ensures  frame: OnlySid(EnvView, View, self.pay, sessionID)
+//@   ensures  frame_pw: OnlySidPW(EnvView, View, self.pay, sessionID)
+//@   derived  frame by L-onlysid-ext
+//@   ensures  ok: err == nil ==> !View[self.pay][sessionID].present
+//@   ensures  fail: err != nil ==> View[self.pay][sessionID] == EnvView[self.pay][sessionID] || !View[self.pay][sessionID].present
+//@   ensures  env: EnvStep(old(View), old(LoggedOut), EnvView, LoggedOut, self.pay)
+
+// ---------------------------------------------------------------------------------------------
 
 //@ interface SessionStoreFactory method Get(self, cfg) r
 //@   pure
